@@ -212,12 +212,87 @@ let thrift_run fn argstr =
        | TOutOfFuel -> "OUTOFFUEL")
   | _ -> "-\t-"
 
+(* ---- json.Decoder under a scripted reader / json.Tokenizer ---- *)
+let compact_json (b : int list) : string =
+  let buf = Buffer.create 64 in
+  let rec go instr esc = function
+    | [] -> ()
+    | c :: r ->
+        if instr then begin
+          Buffer.add_char buf (Char.chr c);
+          if esc then go true false r
+          else if c = 92 then go true true r
+          else if c = 34 then go false false r
+          else go true false r
+        end else if c = 32 || c = 9 || c = 10 || c = 13 then go false false r
+        else begin Buffer.add_char buf (Char.chr c); go (c = 34) false r end in
+  go false false b; Buffer.contents buf
+
+let fnv (s : string) : int64 =
+  let h = ref 0xcbf29ce484222325L in
+  String.iter (fun c -> h := Int64.mul (Int64.logxor !h (Int64.of_int (Char.code c))) 1099511628211L) s; !h
+
+let rec take n l = if n <= 0 then [] else match l with [] -> [] | x :: r -> x :: take (n - 1) r
+let rec drop n l = if n <= 0 then l else match l with [] -> [] | _ :: r -> drop (n - 1) r
+
+(* the harness's scriptReader, as a script of read results (see harness/c11.go) *)
+let make_script (data : int list) (mode : string) (fail_at : int) : (bytes * rerr option) list * rerr =
+  let limit = if fail_at >= 0 && fail_at < List.length data then fail_at else List.length data in
+  let data = take limit data in
+  let term = if fail_at >= 0 then RFail else REOF in
+  let zl l = List.map z_of_int l in
+  let chunks =
+    match mode with
+    | "all" -> if data = [] then [] else [ (zl data, None) ]
+    | "dataerr" -> if data = [] then [] else [ (zl data, Some term) ]
+    | "one" -> List.map (fun c -> (zl [c], None)) data
+    | "z" -> List.concat_map (fun c -> [ ([], None); (zl [c], None) ]) data
+    | m when String.length m > 1 && m.[0] = 'r' ->
+        let k = int_of_string (String.sub m 1 (String.length m - 1)) in
+        let rs = ref 0L in
+        let rec go d acc =
+          if d = [] then List.rev acc else begin
+            rs := Int64.add (Int64.add (Int64.mul !rs 6364136223846793005L) 1442695040888963407L) (Int64.of_int k);
+            let n = 1 + Int64.to_int (Int64.rem (Int64.shift_right_logical !rs 33) (Int64.of_int k)) in
+            go (drop n d) ((zl (take n d), None) :: acc) end in
+        go data []
+    | _ -> [ (zl data, None) ] in
+  (chunks, term)
+
 let json_run fn argstr =
   match fn, String.split_on_char ' ' argstr with
   | "j.valid", [h] ->
       let b = bytes_of_hex h in
       let fuel = nat_of_int (2 * List.length b + 8) in
       (match json_Valid fuel b with None -> "OUTOFFUEL" | Some r -> tf r) ^ "\t" ^ tf (std_valid b)
+  | "j.tok", [h] | "j.tokreuse", [_; h] ->
+      let b = bytes_of_hex h in
+      (match tokenize b with
+       | None -> "OUTOFFUEL"
+       | Some (toks, st) ->
+           let show t =
+             let d = int_of_z t.k_delim in
+             if d = 44 || d = 58 || d = 93 || d = 125 then hex_of_bytes t.k_value
+             else Printf.sprintf "%s/%s/%s/%d" (hex_of_bytes t.k_value) (string_of_z t.k_depth) (string_of_z t.k_index) (if t.k_iskey then 1 else 0) in
+           String.concat " " (List.map show toks @ (if st.t_err then ["ERR"] else [])))
+      ^ "\t-"
+  | "j.stream", [a] ->
+      (match String.split_on_char '|' a with
+       | [h; mode; fa] ->
+           if String.length h > 2 * 300 then "-\t-" else   (* the extracted model is quadratic in the stream length: short streams only *)
+           let data = List.map int_of_z (bytes_of_hex h) in
+           let (script, term) = make_script data mode (int_of_string fa) in
+           let n = List.length data in
+           let ((vals, fin), _) = decode_all (nat_of_int (n + 2)) (nat_of_int (n + List.length script + 40)) (nat_of_int (2 * n + 8)) (d_init script term) [] [] in
+           let fs = (match fin with
+             | DError REOF -> "eof" | DError RUnexpectedEOF -> "ueof" | DError RFail -> "readerr" | DSyntax -> "syntax"
+             | DValue _ -> "?" | DOutOfFuel -> "OUTOFFUEL") in
+           let out = String.concat " " (List.map (fun v -> compact_json (List.map int_of_z v)) vals @ [fs]) in
+           let out = if String.length out > 600
+             then Printf.sprintf "len=%d h=%Lx tail=%s" (String.length out) (fnv out) (String.sub out (String.length out - 40) 40)
+             else out in
+           out ^ "\t-"
+       | _ -> "bad-args")
   | "j.escidx", [h; html] ->
       let b = bytes_of_hex h in
       let fuel = nat_of_int (List.length b + 2) in
@@ -322,6 +397,7 @@ let () =
   try
     while true do
       let line = input_line stdin in
+      if String.length line > 200000 then print_endline "-\t-" else
       match split_on '\t' line with
       | fn :: args :: _ ->
           let r = (try (if String.length fn > 2 && String.sub fn 0 2 = "p." then proto_run fn args
